@@ -242,7 +242,7 @@ func cmdCheck(args []string) {
 		}
 		// only this property's obligations are solved
 		for _, o := range res.Obls {
-			if !has(o.Props, *prop) && (o.Status == "" || o.Solver == "simplifier") {
+			if !has(o.Props, *prop) {
 				o.Status = "skipped" // belongs to another property's check
 			}
 		}
